@@ -220,6 +220,19 @@ def run(ctx: Context, rep) -> None:
     check_borrow(ctx, rep, "C19.borrow", stream_scope(ctx)[1])
     from sa.rules import shared as _shared
     _shared.check_fresh_pass(ctx, rep, "C19.fresh-pass")
+    # an endless stream does not end by accident: workers leave their loop
+    # only on a sentinel (no idle timeout), and the shuffle helpers recognise
+    # the end of their input by the iterator protocol only (no in-band None)
+    from sa.rules import c13 as _c13
+    from sa.rules.c02 import check_value_buffer, stream_scope as _ss
+    _c13.check_sentinel(ctx, rep, "C19.pool-sentinel")
+    _c13.check_owner(ctx, rep, "C19.pool-owner")
+    rep.rule("C19.end-protocol", "shuffle_buffer / shuffle_buffer_async end "
+             "only when their source raises StopIteration (same rule as "
+             "C02.own for the value buffers)")
+    _helpers = _ss(ctx)[0]
+    check_value_buffer(ctx, rep, "C19.end-protocol", _helpers[0])
+    check_value_buffer(ctx, rep, "C19.end-protocol", _helpers[1])
 
 
 
